@@ -1099,6 +1099,7 @@ unsigned vh_thread_windows(unsigned th, const struct vh_window **w)
 }
 struct vh_window vh_thread_open_window(unsigned th) { return thr[th].cur; }
 double vh_thread_last_gvt(unsigned th) { return thr[th].last_gvt; }
+int vh_thread_seen(unsigned th) { return thr[th].seen; }
 unsigned vh_threads_seen(void)
 {
 	unsigned n = 0;
